@@ -37,7 +37,7 @@ _tmp = None
 def wdir():
     global _tmp
     if _tmp is None:
-        _tmp = tempfile.mkdtemp(prefix="vp-c06-%d-" % os.getpid(), dir="/dev/shm" if os.path.isdir("/dev/shm") else None)
+        _tmp = tempfile.mkdtemp(prefix="vp-c06-%d-%d-" % (os.getppid(), os.getpid()), dir="/dev/shm" if os.path.isdir("/dev/shm") else None)
         import atexit; atexit.register(lambda: shutil.rmtree(_tmp, ignore_errors=True))
     return _tmp
 
@@ -174,6 +174,8 @@ def run(tier):
     cli_leg(rep, tier)
     rep.add_sample(dict(src=srcs[5].decode("latin-1"), variants=9, formats=13))
     rep.add_sample(dict(src=srcs[len(srcs) // 2][:200].decode("latin-1")))
+    import glob
+    for d in glob.glob(os.path.join("/dev/shm" if os.path.isdir("/dev/shm") else tempfile.gettempdir(), "vp-c06-%d-*" % os.getpid())): shutil.rmtree(d, ignore_errors=True)      # scratch folders of this run's workers
     return rep.finish()
 
 def replay(rec):
